@@ -54,6 +54,24 @@ def judge(v, c, o, stats):
             v.violation("blit:oob-read:inside", "%s: paint succeeded although the decoded image has only %d pixels (%d needed)" % (geo, o["decoded_len"], need), {"case": c, "got": o})
 
 
+def selftest19(allc, outs):
+    """corrupted observations of in-window paints must be flagged: a wrong / missing / extra pixel, overwritten guard
+    words, a panic"""
+    res = []
+    idx = [i for i, (c, o) in enumerate(zip(allc, outs)) if c["inside"] and not c.get("big") and o["res"] == "ok" and o.get("decoded_len") == c["w"] * c["h"] and len(o.get("changed", [])) >= 1 and not c.get("ddelta")][:300:60]
+    for i in idx:
+        c, o = allc[i], outs[i]
+        ch = o["changed"]
+        free = next(p for p in range(c["Wd"] * c["Hd"] + 1) if p not in [x[0] for x in ch])
+        muts = [("wrong_pixel", dict(o, changed=[[ch[0][0], (ch[0][1] + 1) % 2 ** 32]] + ch[1:])), ("missing_pixel", dict(o, changed=ch[1:])),
+                ("guard_overwritten", dict(o, guard_ok=False)), ("panic", dict(o, res="panic", ek="attempt to subtract with overflow"))]
+        if free < c["Wd"] * c["Hd"]:
+            muts.append(("extra_pixel", dict(o, changed=ch + [[free, 12345]])))
+        for name, o2 in muts:
+            pr = core.Probe(); judge(pr, c, o2, {}); res.append(("%s#%d" % (name, i), bool(pr.hits)))
+    return core.forward_selftest(res)
+
+
 def run(tier, seed):
     v = core.Verdict("C19", tier, seed)
     wd = core.workdir("C19")
@@ -96,13 +114,14 @@ def run(tier, seed):
             if c.get("big"):
                 c = dict(c); c["inside"] = False      # large geometries: safety only (no write list attached)
             judge(v, c, o, stats)
+        tested = selftest19(allc, outs)
         ninside = sum(1 for c in cases if c["inside"])
         cov = {"evaluations": len(outs), "distinct_nontrivial": len({json.dumps({k: c[k] for k in c if k != "writes"}, sort_keys=True) for c in allc}),
                "rule": "ALL geometries enumerated by TLC (Gen_Blit): window %s, rectangle coordinates 0..%d each (in range, out of range, inverted), image sizes 0..%d square = %d cases, %d of them inside the window with their exact write lists; "
                        "+ data-length variants (-1, +1, empty) and 16 bpp on the inside cases and a sample; + random large geometries up to 4096 with coordinates at 0, max-1, max, max+1, 65535; distinct = distinct case records" % (
                            "1..3 x 1..3" if tier == "quick" else "1..4 x 1..4", 4 if tier == "quick" else 5, 4 if tier == "quick" else 5, len(cases), ninside),
                "samples": [{k: c[k] for k in c} for c in cases if c["inside"]][3:5],
-               "outcomes_by_class": stats}
+               "outcomes_by_class": stats, "binding_selftest_rejected": tested}
         return v.finish("exploration", cov, [
             "TLA+ cannot observe memory: out-of-bounds WRITES are seen through guard words placed behind the window buffer (same allocation) and through the 'nothing else changed' comparison; out-of-bounds READS are seen only when they change the result or fault",
             "for rectangles inside the window a failure (Err) is accepted, as the property allows; a success must be pixel exact",
